@@ -12,6 +12,7 @@ extern crate rustc_abi;
 extern crate rustc_data_structures;
 extern crate rustc_driver;
 extern crate rustc_hir;
+extern crate rustc_hir_pretty;
 extern crate rustc_interface;
 extern crate rustc_middle;
 extern crate rustc_session;
@@ -696,10 +697,22 @@ fn dump(tcx: TyCtxt<'_>) {
                 for (vidx, v) in adt.variants().iter_enumerated() {
                     let mut fields = vec![];
                     for f in v.fields.iter() {
+                        let mut doc = String::new();
+                        let mut attrs = vec![];
+                        for a in tcx.get_all_attrs(f.did) {
+                            if let Some(d) = a.doc_str() {
+                                doc.push_str(d.as_str());
+                                doc.push('\n');
+                            } else if let rustc_hir::Attribute::Unparsed(_) = a {
+                                attrs.push(J::s(rustc_hir_pretty::attribute_to_string(&tcx, a)));
+                            }
+                        }
                         fields.push(J::Obj(vec![
                             ("name", J::s(f.name.to_string())),
                             ("ty", J::s(ty_s(tcx.type_of(f.did).instantiate_identity().skip_norm_wip()))),
                             ("vis", J::s(format!("{:?}", f.vis))),
+                            ("doc", if doc.is_empty() { J::Null } else { J::s(doc) }),
+                            ("attrs", if attrs.is_empty() { J::Null } else { J::Arr(attrs) }),
                         ]));
                     }
                     let mut vo = vec![("name", J::s(v.name.to_string())), ("fields", J::Arr(fields))];
@@ -709,7 +722,14 @@ fn dump(tcx: TyCtxt<'_>) {
                     }
                     variants.push(J::Obj(vo));
                 }
+                let mut item_attrs = vec![];
+                for a in tcx.get_all_attrs(did) {
+                    if let rustc_hir::Attribute::Unparsed(_) = a {
+                        item_attrs.push(J::s(rustc_hir_pretty::attribute_to_string(&tcx, a)));
+                    }
+                }
                 adts.push(J::Obj(vec![
+                    ("attrs", if item_attrs.is_empty() { J::Null } else { J::Arr(item_attrs) }),
                     ("path", J::s(path(tcx, did))),
                     ("kind", J::s(if adt.is_enum() { "enum" } else { "struct" })),
                     ("variants", J::Arr(variants)),
